@@ -12,6 +12,14 @@ BASE_NOTE = (
 
 # property -> (category, text, technique, design_ref, extra note)
 CLAIMS = {
+    "C07": (
+        "proof",
+        "LimitedStringIO.write is verified against the abstract view (text,size,limit): appends exactly s, size == UTF-8 bytes of the contents, contents never exceed the limit, raises OutputStreamLimitError iff the write would exceed and then writes nothing; "
+        "get_buffer/_get_buffer give nested buffers the budget limit - bytes already counted; assign keeps the measured local-namespace size (including the carried size, shown additive by a two-run obligation) within the limit; copy carries the caller's measured size.",
+        "contract-based deductive verification (ast->SMT VCs on real source, z3/cvc5)",
+        "DESIGN.md section 4 C07",
+        "utf8len additivity and sys.getsizeof>=0 are assumed (listed in evidence).",
+    ),
     "C24": (
         "proof",
         "Every public operation of LRUCache and ThreadSafeLRUCache (resolved through the MRO, so inherited methods are included) is verified against an abstract recency map "
